@@ -65,6 +65,9 @@ def rule_progress(ctx):
     rules_c02.rule_atomicity(ctx)
     rules_c02.rule_header_lines(ctx)
     rules_c03.rule_increment(ctx)
+    # same request body payload for every buffer size: chunks are contiguous slices of the input (R03.4) whatever
+    # number of chunks one write emits
+    rules_c03.rule_tables(ctx)
 
 
 def rule_completion(ctx):
